@@ -330,7 +330,7 @@ def all_active_finished(states):
 
 @harness('G3', targets=[f'{PROG}.State.done', f'{PROG}.State.delays', f'{PROG}.State.delay', f'{PROG}.State.with_outcomes',
                         f'{PROG}.State.with_handlers', f'{PROG}.State.with_purpose'],
-         props=['C02', 'C06'],
+         props=['C02', 'C06', 'C03'],
          clauses=['done_iff_all_active_finished', 'delays_empty_iff_all_active_finished', 'delays_cover_remaining', 'delay_is_min',
                   'with_outcomes_unknown_raises', 'with_outcomes_applies_exactly', 'with_handlers_activates_selected',
                   'with_purpose_repurposes', 'closed_iff_selected_finished', 'immutable'],
@@ -571,7 +571,7 @@ def X3(vc):
 
 
 # ----------------------------------------------------------------------------------------------- X2
-@harness('X2', targets='kopf._core.actions.execution.execute_handlers_once', props=['C02'],
+@harness('X2', targets='kopf._core.actions.execution.execute_handlers_once', props=['C02', 'C11'],
          clauses=['lifecycle_gets_awakened_only', 'invokes_only_awakened_members', 'state_of_that_handler',
                   'each_at_most_once', 'executes_the_plan', 'outcomes_by_id', 'passes_context', 'errors_propagate'],
          canaries=['canary.invokes_all_handlers', 'canary.never_raises'],
@@ -721,7 +721,7 @@ class _CycleState:
     def store(self, body, patch, storage): self.vc.emit('store', self, body, patch, storage)
 
 
-@harness('H8', targets='kopf._core.reactor.subhandling.execute', props=['C02'],
+@harness('H8', targets='kopf._core.reactor.subhandling.execute', props=['C02', 'C11'],
          clauses=['children_retry_iff_not_done', 'state_threaded', 'stored_before_escalation', 'subrefs_registered',
                   'implicit_once', 'registry_from_arguments', 'rejects_bad_usage', 'errors_propagate'],
          canaries=['canary.never_retries', 'canary.always_executes'],
